@@ -28,9 +28,9 @@ using namespace vc;
 extern "C" const char *__asan_default_options()
 {
   return "detect_leaks=0:exitcode=77:allocator_may_return_null=0:max_allocation_size_mb=1024:"
-         "malloc_context_size=6:handle_abort=0:detect_stack_use_after_return=0:quarantine_size_mb=8";
+         "malloc_context_size=6:handle_abort=0:detect_stack_use_after_return=0:quarantine_size_mb=8:symbolize=0";
 }
-extern "C" const char *__ubsan_default_options() { return "print_stacktrace=1:exitcode=77"; }
+extern "C" const char *__ubsan_default_options() { return "print_stacktrace=1:exitcode=77:symbolize=0"; }
 
 // ------------------------------------------------------------------------------------------------
 // keyword harvest: wrap colvarparse::check_keywords(std::string &, char const *)
@@ -298,9 +298,51 @@ static void reset_workdir(std::string const &wd)
   }
 }
 
-static vproxy *make_proxy()
+// Engine simulator of this check.  vproxy copies NAMD's atom registration, where check_atom_id() reports the
+// error and returns COLVARS_INPUT_ERROR (a positive constant) which init_atom() then tests with "< 0": a
+// non-existent atom number ends up registered as atom id 4.  That is the engine's protocol and is kept as the
+// default ("namd" convention; forces are summed over slots so a duplicate slot cannot hide a force).  Under the
+// "error-return" convention init_atom() does what every engine interface intends: report the error, create no
+// slot, return COLVARS_INPUT_ERROR.
+class c10proxy : public vproxy {
+public:
+  bool error_return = false;
+  explicit c10proxy(int n) : vproxy(n) {}
+  int init_atom(int atom_number) override
+  {
+    if (!error_return) return vproxy::init_atom(atom_number);
+    int aid = atom_number - 1;
+    for (size_t i = 0; i < atoms_ids.size(); i++)
+      if (atoms_ids[i] == aid) { atoms_refcount[i] += 1; return (int) i; }
+    if (aid < 0 || aid >= natoms) {
+      cvm::error("Error: invalid atom number specified, " + cvm::to_str(atom_number) + "\n", COLVARS_INPUT_ERROR);
+      return COLVARS_INPUT_ERROR;
+    }
+    int const index = add_atom_slot(aid);
+    atoms_masses[index] = m[aid];
+    atoms_charges[index] = q[aid];
+    atoms_positions[index] = x[aid];
+    return index;
+  }
+  int step(long engine_step)
+  {
+    int rc = vproxy::step(engine_step);
+    for (int a = 0; a < natoms; a++) fapp[a] = cvm::rvector(0, 0, 0);
+    for (size_t i = 0; i < atoms_ids.size(); i++)
+      if (atoms_ids[i] >= 0 && atoms_ids[i] < natoms) fapp[atoms_ids[i]] += atoms_new_colvar_forces[i];
+    for (int a = 0; a < natoms; a++) prev_total[a] = fsys[a] + fapp[a];
+    return rc;
+  }
+};
+static bool g_error_return = false;
+
+static c10proxy *make_proxy()
 {
-  vproxy *px = new vproxy(FX.natoms);
+  c10proxy *px = new c10proxy(FX.natoms);
+  px->error_return = g_error_return;
+  px->alch_enabled = true;
+  px->alch_lambda = 0.5;
+  px->alch_dEdl = 1.25;
   for (int a = 0; a < FX.natoms; a++) {
     px->x[a] = FX.frames[0][a];
     px->m[a] = FX.mass[a];
@@ -313,7 +355,7 @@ static vproxy *make_proxy()
   for (int i = 0; i < 64; i++) px->rng.push_back(0.25 * ((i * 7) % 9 - 4));
   return px;
 }
-static void load_frame(vproxy *px, int f)
+static void load_frame(c10proxy *px, int f)
 {
   f = f % (int) FX.frames.size();
   for (int a = 0; a < FX.natoms; a++) px->x[a] = FX.frames[f][a];
@@ -353,41 +395,114 @@ static std::string slug(std::string s)
   return o;
 }
 
+// One llvm-symbolizer co-process per worker (children print raw module offsets: starting a symbolizer in
+// every crashing child costs seconds on this binary).
+struct Symbolizer {
+  pid_t pid = -1;
+  int to = -1, from = -1;
+  std::string exe;
+  std::map<std::string, std::vector<std::pair<std::string, std::string>>> fcache;  // offset -> frames
+  pid_t owner = -1;
+  void start()
+  {
+    char buf[4096];
+    ssize_t n = readlink("/proc/self/exe", buf, sizeof(buf) - 1);
+    if (n <= 0) return;
+    buf[n] = 0;
+    exe = buf;
+    int a[2], b[2];
+    if (pipe(a) != 0 || pipe(b) != 0) return;
+    pid = fork();
+    if (pid == 0) {
+      dup2(a[0], 0);
+      dup2(b[1], 1);
+      close(a[1]); close(b[0]);
+      int dn = open("/dev/null", O_WRONLY);
+      dup2(dn, 2);
+      unsetenv("ASAN_OPTIONS");
+      execlp("llvm-symbolizer", "llvm-symbolizer", "--demangle", "--inlines", "--functions=linkage", (char *) NULL);
+      _exit(127);
+    }
+    close(a[0]); close(b[1]);
+    to = a[1];
+    from = b[0];
+    owner = getpid();
+  }
+  // all (function, file:line) frames of one address, innermost first
+  std::vector<std::pair<std::string, std::string>> lookup(std::string const &off)
+  {
+    std::vector<std::pair<std::string, std::string>> v;
+    if (owner != getpid()) { pid = -1; fcache.clear(); start(); }
+    if (pid <= 0) return v;
+    auto ci = fcache.find(off);
+    if (ci != fcache.end()) return ci->second;
+    std::string q = "\"" + exe + "\" " + off + "\n";
+    if (write(to, q.data(), q.size()) != (ssize_t) q.size()) return v;
+    // answer: pairs of lines, terminated by an empty line
+    std::string acc;
+    char c;
+    double t0 = now();
+    while (now() - t0 < 120) {
+      ssize_t n = read(from, &c, 1);
+      if (n <= 0) break;
+      acc += c;
+      size_t L = acc.size();
+      if (L >= 2 && acc[L - 1] == '\n' && acc[L - 2] == '\n') break;
+      if (acc == "\n") break;
+    }
+    std::istringstream is(acc);
+    std::string f, l;
+    while (std::getline(is, f) && std::getline(is, l)) {
+      if (f.empty()) break;
+      v.push_back(std::make_pair(f, l));
+    }
+    fcache[off] = v;
+    return v;
+  }
+};
+static Symbolizer SYM;
+
 static void find_site(Outcome &o)
 {
-  // first stack frame whose source file is a library source (…/src/colvar*.cpp|h, nr_jacobi)
+  // first stack frame (inlined frames included) whose source file is a library source (.../src/*)
   std::istringstream is(o.report);
   std::string l;
-  while (std::getline(is, l)) {
-    size_t in = l.find(" in ");
-    size_t sp = l.find("/src/");
-    if (l.find("#") == std::string::npos || in == std::string::npos || sp == std::string::npos) continue;
-    if (l.find("/harness/") != std::string::npos) continue;
-    std::string rest = l.substr(in + 4);
-    size_t fsp = rest.rfind(" /");
-    if (fsp == std::string::npos) continue;
-    std::string fn = rest.substr(0, fsp), loc = rest.substr(fsp + 1);
-    size_t par = fn.find('(');
-    if (par != std::string::npos) fn.erase(par);
-    size_t sl = loc.rfind('/');
-    if (sl != std::string::npos) loc.erase(0, sl + 1);
-    // file:line[:col]
-    size_t c1 = loc.find(':');
-    if (c1 != std::string::npos) {
-      size_t c2 = loc.find(':', c1 + 1);
-      if (c2 != std::string::npos) loc.erase(c2);
+  std::string self = SYM.exe;
+  int nframes = 0;
+  while (std::getline(is, l) && nframes < 40) {
+    size_t h = l.find('#');
+    size_t op = l.rfind('('), pl = l.rfind("+0x"), cp = l.rfind(')');
+    if (h == std::string::npos || op == std::string::npos || pl == std::string::npos || cp == std::string::npos || pl < op) continue;
+    std::string mod = l.substr(op + 1, pl - op - 1), off = l.substr(pl + 1, cp - pl - 1);
+    if (mod.find("c10_params") == std::string::npos) continue;
+    nframes++;
+    auto frames = SYM.lookup(off);
+    for (auto const &fr : frames) {
+      std::string fn = fr.first, loc = fr.second;
+      if (loc.find("/src/") == std::string::npos || loc.find("/harness/") != std::string::npos) continue;
+      size_t par = fn.find('(');
+      if (par != std::string::npos) fn.erase(par);
+      size_t sl = loc.rfind('/');
+      if (sl != std::string::npos) loc.erase(0, sl + 1);
+      size_t c1 = loc.find(':');
+      if (c1 != std::string::npos) {
+        size_t c2 = loc.find(':', c1 + 1);
+        if (c2 != std::string::npos) loc.erase(c2);
+      }
+      std::string f2;
+      int ang = 0;
+      for (char ch : fn) {
+        if (ch == '<') ang++;
+        else if (ch == '>') ang--;
+        else if (!ang) f2 += ch;
+      }
+      // drop a leading return type ("void colvarparse::mark_key_set_user")
+      size_t sp = f2.rfind(' ');
+      if (sp != std::string::npos && f2.find("operator") == std::string::npos) f2.erase(0, sp + 1);
+      o.func = trim(f2);
+      o.site = o.func + " " + loc;
+      return;
     }
-    // drop template arguments and std:: noise to keep the signature short and stable
-    std::string f2;
-    int ang = 0;
-    for (char ch : fn) {
-      if (ch == '<') ang++;
-      else if (ch == '>') ang--;
-      else if (!ang) f2 += ch;
-    }
-    o.func = trim(f2);
-    o.site = o.func + " " + loc;
-    return;
   }
 }
 
@@ -443,8 +558,29 @@ static long rss_mb(pid_t pid)
   return res * (sysconf(_SC_PAGESIZE) / 1024) / 1024;
 }
 
-static Outcome run_child(std::function<int()> fn, double timeout_s, long rss_cap_mb)
+static double cpu_s(pid_t pid)
 {
+  char p[64];
+  snprintf(p, sizeof(p), "/proc/%d/stat", (int) pid);
+  FILE *f = fopen(p, "r");
+  if (!f) return 0;
+  char buf[2048];
+  size_t n = fread(buf, 1, sizeof(buf) - 1, f);
+  fclose(f);
+  buf[n] = 0;
+  char *r = strrchr(buf, ')');
+  if (!r) return 0;
+  // after ") ": state ppid pgrp session tty tpgid flags minflt cminflt majflt cmajflt utime stime
+  unsigned long ut = 0, stt = 0;
+  if (sscanf(r + 2, "%*c %*d %*d %*d %*d %*d %*u %*u %*u %*u %*u %lu %lu", &ut, &stt) != 2) return 0;
+  return (double) (ut + stt) / (double) sysconf(_SC_CLK_TCK);
+}
+
+// limits: CPU seconds of the child (robust against a loaded machine) and a generous wall limit for a child
+// that blocks without using CPU
+static Outcome run_child(std::function<int()> fn, double cpu_limit_s, long rss_cap_mb)
+{
+  double const timeout_s = std::max(120.0, 20.0 * cpu_limit_s);
   Outcome o;
   int po[2], pe[2];
   if (pipe(po) != 0 || pipe(pe) != 0) harness_error("pipe failed");
@@ -459,6 +595,8 @@ static Outcome run_child(std::function<int()> fn, double timeout_s, long rss_cap
     dup2(pe[1], 2);
     int dn = open("/dev/null", O_WRONLY);
     dup2(dn, 1);
+    int di = open("/dev/null", O_RDONLY);
+    dup2(di, 0);
     alarm(0);
     int rc = fn();
     fflush(NULL);
@@ -487,7 +625,7 @@ static Outcome run_child(std::function<int()> fn, double timeout_s, long rss_cap
     long rss = rss_mb(pid);
     if (rss > o.peak_rss_mb) o.peak_rss_mb = rss;
     if (rss > rss_cap_mb) { rss_killed = true; kill(pid, SIGKILL); waitpid(pid, &st, 0); break; }
-    if (now() - t0 > timeout_s) { timed_out = true; kill(pid, SIGKILL); waitpid(pid, &st, 0); break; }
+    if (now() - t0 > timeout_s || cpu_s(pid) > cpu_limit_s) { timed_out = true; kill(pid, SIGKILL); waitpid(pid, &st, 0); break; }
   }
   drain();
   close(po[0]);
@@ -509,6 +647,8 @@ struct Base {
 static std::vector<Base> BASES;
 static std::map<std::string, std::string> CAMEL;   // lower-case keyword -> spelling used in the sources
 static std::set<std::string> BLOCK_KEYS;           // keywords that are contexts somewhere in the corpus
+static std::map<std::string, std::set<std::string>> GLOBAL_KW;  // union of the registries over all bases
+static std::set<std::string> NESTED_NOTE;
 
 struct Mut {
   std::vector<int> path;  // block that receives the mutation
@@ -527,6 +667,12 @@ struct Case {
   std::vector<Mut> muts;
 };
 
+// registry key of a block: the two spellings of the histogram grid block share one registry
+static std::string ctx_of(std::string const &block_key)
+{
+  std::string k = lower(block_key);
+  return k == "histogramgrid" ? "grid" : k;
+}
 static std::string spell(std::string const &lk)
 {
   auto it = CAMEL.find(lk);
@@ -608,7 +754,7 @@ static std::string case_id(Case const &c)
 static int child_body(std::string const &conf, bool with_harvest)
 {
   double tb0 = now();
-  vproxy *px = make_proxy();
+  c10proxy *px = make_proxy();
   g_harvest.clear();
   g_harvest_on = with_harvest;
   int rc = px->config(conf);
@@ -737,9 +883,17 @@ static void enum_block(int bi, Node &blk, std::vector<int> const &path, bool tho
                        std::set<std::string> const *only = NULL, std::vector<Mut> const *prefix = NULL)
 {
   Base &b = BASES[bi];
-  std::string ctx = lower(blk.key);
+  std::string ctx = ctx_of(blk.key);
   auto it = b.kw.find(ctx);
-  if (it == b.kw.end()) harness_error("no keyword registry harvested for block '" + blk.key + "' of " + b.name);
+  if (it == b.kw.end()) {
+    // e.g. components nested in a combination component: their registry is never checked by the library
+    // when nested; use the registry of the same object type harvested from the other configurations
+    auto g = GLOBAL_KW.find(ctx);
+    if (g == GLOBAL_KW.end()) harness_error("no keyword registry harvested for block '" + blk.key + "' of " + b.name);
+    b.kw[ctx] = g->second;
+    it = b.kw.find(ctx);
+    NESTED_NOTE.insert(b.name + ":" + blk.key);
+  }
   std::map<std::string, int> present;
   for (size_t j = 0; j < blk.kids.size(); j++) present[lower(blk.kids[j].key)] = (int) j;
   std::set<std::string> kws = it->second;
@@ -843,7 +997,7 @@ static void enum_tree(int bi, Node &n, std::vector<int> &path, bool thorough, st
 // ------------------------------------------------------------------------------------------------
 // phase 3: [A, step, rejected B, step, C, step] vs the same run without B
 // ------------------------------------------------------------------------------------------------
-static std::string record_step(vproxy *px, std::vector<std::string> const &cvs, std::vector<std::string> const &bs)
+static std::string record_step(c10proxy *px, std::vector<std::string> const &cvs, std::vector<std::string> const &bs)
 {
   std::ostringstream os;
   os.precision(17);
@@ -917,7 +1071,7 @@ static const char *SEQ_C =
 static std::string seq_run(SeqA const &A, std::string const &prelude, std::string const *B, int &rcA, int &rcP,
                            int &rcB, int &rcC, std::string &errB)
 {
-  vproxy *px = make_proxy();
+  c10proxy *px = make_proxy();
   std::ostringstream rec;
   rcA = px->config(A.conf);
   rcP = prelude.size() ? px->config(prelude) : 0;
@@ -1009,6 +1163,98 @@ static int seq_child(SeqA const &A, std::string const &prelude, std::string cons
   return 0;
 }
 
+static const char *SEP = " ## ";
+static std::string raw_sig(std::string const &label, std::string const &kind, std::string const &func)
+{
+  return label + SEP + kind + SEP + func;
+}
+// order of value classes used to name a finding after its simplest trigger
+static int vclass_rank(std::string const &label)
+{
+  static std::vector<std::string> order;
+  if (order.empty()) {
+    order = VCLASS_QUICK;
+    for (auto s : {"long", "short", "absent", "swapped"}) order.push_back(s);
+    for (auto const &s : VCLASS_MORE) order.push_back(s);
+  }
+  size_t e = label.rfind('=');
+  std::string v = e == std::string::npos ? "" : label.substr(e + 1);
+  int pairs = (int) std::count(label.begin(), label.end(), '+');
+  for (size_t i = 0; i < order.size(); i++)
+    if (order[i] == v) return (int) i + 100 * pairs;
+  return 90 + 100 * pairs;
+}
+
+// One finding per crash site: all raw violations with the same (end kind, library function) are one
+// signature, named after the simplest keyword/value that triggers it; the others are listed in the detail.
+static void group_findings(Result &total)
+{
+  struct G { long count = 0; std::map<std::string, long> labels; };
+  std::map<std::string, G> groups;
+  std::map<std::string, std::string> key_of_raw;
+  for (auto const &kv : total.viol_count) {
+    std::string raw = kv.first;
+    size_t a = raw.find(SEP), b = raw.find(SEP, a + 4);
+    if (a == std::string::npos || b == std::string::npos) { groups[raw].count += kv.second; key_of_raw[raw] = raw; continue; }
+    std::string label = raw.substr(0, a), kind = raw.substr(a + 4, b - a - 4), func = raw.substr(b + 4);
+    std::string key;
+    if (func.size()) key = kind + "@" + func;
+    else if (kind.rfind("seq:", 0) == 0)
+      key = kind + "@" + label.substr(0, label.find(':'));  // per object type
+    else if (kind == "timeout" || kind == "rss-cap" || kind == "error-without-message" || kind.rfind("abort:", 0) == 0)
+      key = kind + "@" + label.substr(0, label.find('='));  // per object type and keyword
+    else key = kind + "@?" + label.substr(0, label.find(':'));
+    groups[key].count += kv.second;
+    groups[key].labels[label] += kv.second;
+    key_of_raw[raw] = key;
+  }
+  std::map<std::string, long> nc;
+  std::vector<Violation> nv;
+  for (auto const &g : groups) {
+    if (g.second.labels.empty()) { nc[g.first] = g.second.count; continue; }
+    std::string best;
+    for (auto const &l : g.second.labels) {
+      if (best.empty()) { best = l.first; continue; }
+      int r1 = vclass_rank(l.first), r0 = vclass_rank(best);
+      if (r1 < r0 || (r1 == r0 && l.first < best)) best = l.first;
+    }
+    std::string kind = g.first.substr(0, g.first.find('@'));
+    std::string func = g.first.substr(g.first.find('@') + 1);
+    bool site = func.size() && func[0] != '?' && g.first.find("@" + best.substr(0, best.find('='))) == std::string::npos;
+    std::string sig = "C10:" + best + ":" + kind + (site ? "@" + func : "");
+    // hm: seq verdicts are prefixed for readability
+    if (kind.rfind("seq:", 0) == 0) sig = "C10:seq:" + best + ":" + kind.substr(4);
+    nc[sig] = g.second.count;
+    // detail of the best label
+    std::string detail;
+    for (auto const &v : total.violations) {
+      auto k = key_of_raw.find(v.sig);
+      if (k == key_of_raw.end() || k->second != g.first) continue;
+      if (v.sig.rfind(best + SEP, 0) == 0) { detail = v.detail; break; }
+      if (detail.empty()) detail = v.detail;
+    }
+    std::string trig = "[";
+    size_t n = 0;
+    for (auto const &l : g.second.labels) {
+      if (n++ >= 80) { trig += ",\"...\""; break; }
+      trig += (n > 1 ? "," : "") + std::string("\"") + jesc(l.first) + "\"";
+    }
+    trig += "]";
+    bool hard = !(kind.rfind("ubsan:", 0) == 0 && kind.find("null-pointer") == std::string::npos &&
+                  kind.find("out-of-bounds") == std::string::npos);
+    std::string extra = "\"n_cases\":" + std::to_string(g.second.count) + ",\"n_triggers\":" +
+                        std::to_string(g.second.labels.size()) + ",\"severity\":\"" +
+                        (kind.rfind("seq:", 0) == 0 || kind == "error-without-message" ? "semantic"
+                         : hard ? "signal / memory error / hang in a production build"
+                                : "undefined behaviour reported by UBSan (no signal in a production build); the abort hides what follows") +
+                        "\",\"triggers\":" + trig + ",";
+    if (detail.size() && detail[0] == '{') detail = "{" + extra + detail.substr(1);
+    nv.push_back(Violation{sig, detail});
+  }
+  total.viol_count = nc;
+  total.violations = nv;
+}
+
 // ------------------------------------------------------------------------------------------------
 int main(int argc, char **argv)
 {
@@ -1016,7 +1262,7 @@ int main(int argc, char **argv)
   bool const thorough = args.thorough();
   std::string repo = args.kv.count("repo") ? args.kv["repo"] : "/repo";
   std::string scratch = args.kv.count("scratch") ? args.kv["scratch"] : ".";
-  double const T_CASE = 8.0, T_RETRY = 60.0;
+  double const T_CASE = 2.0, T_RETRY = 20.0;  // CPU seconds of one child
   long const RSS_CAP_MB = 3072;
   double t_start = now();
   setenv("OMP_NUM_THREADS", "2", 1);
@@ -1046,6 +1292,7 @@ int main(int argc, char **argv)
     bool ok;
     std::string txt = read_file(args.replay, &ok);
     if (!ok) harness_error("cannot read " + args.replay);
+    std::string txt0 = txt;
     // a vcheck replay file (JSON with case.config) or a plain configuration
     size_t p = txt.find("\"config\": \"");
     if (p != std::string::npos) {
@@ -1056,7 +1303,25 @@ int main(int argc, char **argv)
     std::string wd = scratch + "/replay";
     reset_workdir(wd);
     if (chdir(wd.c_str())) harness_error("chdir");
-    Outcome o = run_child([&]() { return child_body(txt, false); }, T_RETRY, RSS_CAP_MB);
+    if (txt0.find("\"sequence\"") != std::string::npos) {
+      auto field = [&](std::string const &k) {
+        size_t a = txt0.find("\"" + k + "\": \"");
+        if (a == std::string::npos) return std::string();
+        size_t q = a + k.size() + 5, e = q;
+        while (e < txt0.size() && !(txt0[e] == '"' && txt0[e - 1] != '\\')) e++;
+        return Result::junesc(txt0.substr(q, e - q));
+      };
+      SeqA A;
+      A.name = field("A");
+      for (auto const &a : seqA()) if (a.name == A.name) A = a;
+      std::string pre = field("prelude"), B = field("B");
+      Outcome o = run_child([&]() { return seq_child(A, pre, B); }, T_RETRY, RSS_CAP_MB);
+      printf("sequence replay end: %s site: %s\n%s\n%s\n", o.kind.c_str(), o.site.c_str(),
+             Result::junesc(o.out).c_str(), o.report.c_str());
+      return 0;
+    }
+    double lim = getenv("C10_REPLAY_CPU") ? atof(getenv("C10_REPLAY_CPU")) : T_RETRY;
+    Outcome o = run_child([&]() { return child_body(txt, false); }, lim, RSS_CAP_MB);
     printf("replay end: %s  site: %s  (%.2fs, peak rss %ld MB)\n%s\n%s\n", o.kind.c_str(), o.site.c_str(), o.secs,
            o.peak_rss_mb, o.out.c_str(), o.report.c_str());
     Result r;
@@ -1072,6 +1337,7 @@ int main(int argc, char **argv)
   if (chdir(wd0.c_str())) harness_error("chdir " + wd0);
   Result total;
   long skipped_bases = 0;
+  std::string base_failures;
   for (auto const &cf : corpus) {
     std::string nm = cf.first.substr(cf.first.find('/') + 1);
     if (SKIP.count(nm)) {
@@ -1087,24 +1353,31 @@ int main(int argc, char **argv)
     reset_workdir(wd0);
     Outcome o = run_child([&]() { return child_body(conf, true); }, T_RETRY, RSS_CAP_MB);
     Rep r = parse_rep(o.out);
-    if (o.kind != "ok" || !r.ok)
-      harness_error("base configuration " + cf.first + " ended with " + o.kind + "\n" + o.report);
-    if (r.rc != 0 || r.src != 0 || r.wrc != 0 || r.orc != 0 || r.erc != 0)
-      harness_error("base configuration " + cf.first + " is not accepted (rc " + std::to_string(r.rc) + " steps " +
-                    std::to_string(r.src) + " state " + std::to_string(r.wrc) + " out " + std::to_string(r.orc) +
-                    " end " + std::to_string(r.erc) + "): " + r.first_err);
+    if (o.kind != "ok" || !r.ok) {
+      base_failures += "base configuration " + cf.first + " ended with " + o.kind + " " + o.site + "\n" + o.report.substr(0, 600) + "\n";
+      continue;
+    }
+    if (r.rc != 0 || r.src != 0 || r.wrc != 0 || r.orc != 0 || r.erc != 0) {
+      base_failures += "base configuration " + cf.first + " is not accepted (rc " + std::to_string(r.rc) + " steps " +
+                       std::to_string(r.src) + " state " + std::to_string(r.wrc) + " out " + std::to_string(r.orc) +
+                       " end " + std::to_string(r.erc) + "): " + r.first_err + "\n";
+      continue;
+    }
     for (auto const &h : r.harvest) {
       b.kw[h.first].insert(h.second.begin(), h.second.end());
       if (h.first != "colvarmodule") BLOCK_KEYS.insert(h.first);
     }
     BASES.push_back(b);
   }
+  if (base_failures.size()) harness_error("base configurations must load and run cleanly:\n" + base_failures);
   // bias types and component types are block keywords everywhere
   {
     std::set<std::string> all;
     for (auto const &b : BASES)
-      for (auto const &kv : b.kw)
+      for (auto const &kv : b.kw) {
         if (kv.first != "colvarmodule") all.insert(kv.first);
+        GLOBAL_KW[kv.first].insert(kv.second.begin(), kv.second.end());
+      }
     BLOCK_KEYS = all;
   }
 
@@ -1129,18 +1402,24 @@ int main(int argc, char **argv)
   }
   // quick tier: a case is run once per (object-type chain, keys present in the block, keyword, value class);
   // the thorough tier runs every case of every base
-  if (!thorough) {
+  {
     std::set<std::string> seen;
     std::vector<Case> keep;
     for (auto const &c : cases) {
       Mut const &m = c.muts[0];
-      Node t = BASES[c.base].tree;
+      Node &t = BASES[c.base].tree;
       std::string sig;
-      Node *n = &t;
-      for (int i : m.path) { n = &n->kids[i]; sig += lower(n->key) + "/"; }
-      std::set<std::string> pk;
-      for (auto const &k : n->kids) pk.insert(lower(k.key) + (k.block ? "{}" : ""));
-      for (auto const &k : pk) sig += k + ",";
+      if (thorough) {
+        // once per (chain of object types, keys present in the block, keyword, value class)
+        Node *n = &t;
+        for (int i : m.path) { n = &n->kids[i]; sig += lower(n->key) + "/"; }
+        std::set<std::string> pk;
+        for (auto const &k : n->kids) pk.insert(lower(k.key) + (k.block ? "{}" : ""));
+        for (auto const &k : pk) sig += k + ",";
+      } else {
+        // once per (object type, keyword, value class), in the first configuration that has the object type
+        sig = ctx_label(BASES[c.base], m.ctx);
+      }
       sig += "|" + m.kw + "=" + m.vclass;
       if (seen.insert(sig).second) keep.push_back(c);
     }
@@ -1166,6 +1445,7 @@ int main(int argc, char **argv)
       reset_workdir(wd);
       if (chdir(wd.c_str())) harness_error("chdir " + wd);
       std::set<std::string> disc_seen;
+      std::map<std::string, int> confirmed;
       for (size_t i = shard; i < cs.size(); i += nsh) {
         Case const &c = cs[i];
         std::string conf = case_config(c);
@@ -1180,11 +1460,12 @@ int main(int argc, char **argv)
         if (o.kind == "ok") {
           Rep rep = parse_rep(o.out);
           if (!rep.ok) {
-            r.violation("C10:" + lab + ":child-report-missing", detail_json(c, conf, o, NULL));
+            r.violation(raw_sig(lab, "child-report-missing", ""), detail_json(c, conf, o, NULL));
             continue;
           }
           bool rejected = rep.rc != 0;
           r.count(rejected ? "parse_rejected" : "parse_accepted");
+          if (rejected) r.notes.push_back("REJ\t" + phase + "\t" + std::to_string(i));
           r.count("child_body_ms", rep.body_us / 1000);
           r.count("child_wall_ms", (long) (o.secs * 1000));
           if (!rejected && (rep.src | rep.wrc | rep.orc | rep.erc)) r.count("accepted_then_runtime_error");
@@ -1195,7 +1476,7 @@ int main(int argc, char **argv)
           if ((rep.rc != 0 && rep.nerr_parse == 0) || ((rep.src | rep.wrc | rep.orc | rep.erc) && rep.nerr == 0)) {
             Outcome oo = o;
             oo.kind = "error-without-message";
-            r.violation("C10:" + lab + ":error-without-message", detail_json(c, conf, oo, NULL));
+            r.violation(raw_sig(lab, "error-without-message", ""), detail_json(c, conf, oo, NULL));
           }
           if (r.samples.size() < 2 && (i / nsh) % 97 == 3)
             r.sample("{\"base\":\"" + jesc(BASES[c.base].name) + "\",\"mutation\":\"" + jesc(lab) + "\",\"end\":\"" +
@@ -1213,11 +1494,22 @@ int main(int argc, char **argv)
           }
           continue;
         }
-        // abnormal end: replay before reporting (a timeout is replayed with a longer limit)
+        // abnormal end: replay before reporting (a timeout is replayed with a longer limit); once the same
+        // end at the same library function has been confirmed by two replays in this worker, further cases
+        // ending there are counted without another replay
+        r.seen("nontrivial", case_id(c));
+        std::string okey = o.kind + "@" + o.func;
+        if (o.func.size() && confirmed[okey] >= 2) {
+          r.count("abnormal_ends");
+          r.count("abnormal_ends_at_confirmed_site_not_replayed");
+          r.seen("outcomes", "abnormal:" + o.kind);
+          r.violation(raw_sig(lab, o.kind, o.func), detail_json(c, conf, o, NULL));
+          continue;
+        }
         reset_workdir(wd);
         Outcome o2 = run_child([&]() { return child_body(conf, false); }, o.kind == "timeout" ? T_RETRY : T_CASE * 2,
                                RSS_CAP_MB);
-        r.seen("nontrivial", case_id(c));
+        if (o2.kind == o.kind && o2.func == o.func) confirmed[okey]++;
         if (o2.kind == "ok") {
           r.count("abnormal_not_reproduced");
           r.notes.push_back("not reproduced on replay (" + o.kind + "): " + case_id(c));
@@ -1225,12 +1517,37 @@ int main(int argc, char **argv)
         }
         r.count("abnormal_ends");
         r.seen("outcomes", "abnormal:" + o2.kind);
-        std::string sig = "C10:" + lab + ":" + o2.kind + (o2.func.size() ? "@" + o2.func : "");
-        r.violation(sig, detail_json(c, conf, o2, &o));
+        r.violation(raw_sig(lab, o2.kind, o2.func), detail_json(c, conf, o2, &o));
       }
     }, res, 7000);
   };
 
+  // internal notes (prefix + tab) are taken out of the result
+  auto take_notes = [&](std::string const &prefix) {
+    std::vector<std::string> got, rest;
+    for (auto const &n : total.notes) {
+      if (n.rfind(prefix + "\t", 0) == 0) got.push_back(n);
+      else rest.push_back(n);
+    }
+    total.notes = rest;
+    return got;
+  };
+  std::set<size_t> rejected1, rejected1b;
+  auto take_rejected = [&]() {
+    for (auto const &n : take_notes("REJ")) {
+      size_t a = n.find('\t'), b = n.find('\t', a + 1);
+      std::string ph = n.substr(a + 1, b - a - 1);
+      size_t idx = strtoul(n.c_str() + b + 1, NULL, 10);
+      if (ph == "phase1") rejected1.insert(idx);
+      else if (ph == "phase1b") rejected1b.insert(idx);
+    }
+  };
+  if (NESTED_NOTE.size()) {
+    std::string l;
+    for (auto const &n : NESTED_NOTE) l += (l.size() ? ", " : "") + n;
+    total.notes.push_back("blocks whose keyword registry the library never checks (nested components); registry of the same "
+                          "object type taken from the other configurations: " + l);
+  }
   bool exhaustive = true;
   fprintf(stderr, "bases: %zu, phase-1 cases: %zu (setup %.1fs)\n", BASES.size(), cases.size(), now() - t_start);
   if (getenv("C10_LIMIT")) {
@@ -1248,14 +1565,9 @@ int main(int argc, char **argv)
   // ---------------- phase 1b: one closure level over newly readable keywords ----------------
   std::vector<Case> cases1b;
   {
-    std::vector<std::string> rest;
+    take_rejected();
     std::set<std::string> done;
-    std::vector<std::string> discs;
-    for (auto const &n : total.notes) {
-      if (n.rfind("DISC\t", 0) == 0) discs.push_back(n);
-      else rest.push_back(n);
-    }
-    total.notes = rest;
+    std::vector<std::string> discs = take_notes("DISC");
     std::sort(discs.begin(), discs.end());
     // group: revealing case -> ctx -> new keywords; one revealing case per (base, ctx, keyword)
     std::map<size_t, std::map<std::string, std::set<std::string>>> by_case;
@@ -1290,7 +1602,7 @@ int main(int argc, char **argv)
         std::vector<int> path, best;
         bool found = false;
         std::function<void(Node &)> rec = [&](Node &n) {
-          if (lower(n.key) == cx.first) {
+          if (ctx_of(n.key) == cx.first) {
             bool on_path = path.size() <= rev.muts[0].path.size() &&
                            std::equal(path.begin(), path.end(), rev.muts[0].path.begin());
             if (!found || on_path) { best = path; found = true; }
@@ -1323,13 +1635,8 @@ int main(int argc, char **argv)
   if (cases1b.size()) {
     if (!run_cases(cases1b, "phase1b", total)) return 2;
     // second-level discoveries are only counted
-    std::vector<std::string> rest;
-    long d2 = 0;
-    for (auto const &n : total.notes) {
-      if (n.rfind("DISC\t", 0) == 0) d2++;
-      else rest.push_back(n);
-    }
-    total.notes = rest;
+    take_rejected();
+    long d2 = (long) take_notes("DISC").size();
     total.count("keywords_seen_only_at_closure_level_2_not_enumerated", d2);
   }
   double t2 = now();
@@ -1369,9 +1676,8 @@ int main(int argc, char **argv)
         }
     }
     if (!run_cases(cases2, "phase2_pairs", total)) return 2;
-    std::vector<std::string> rest;
-    for (auto const &n : total.notes) if (n.rfind("DISC\t", 0) != 0) rest.push_back(n);
-    total.notes = rest;
+    take_notes("DISC");
+    take_notes("REJ");
   }
   double t3 = now();
   fprintf(stderr, "phase2: %zu cases in %.1fs\n", cases2.size(), t3 - t2);
@@ -1380,9 +1686,22 @@ int main(int argc, char **argv)
   {
     std::vector<SeqA> As = seqA();
     if (!thorough) As.resize(1);
-    // B candidates: every phase-1 case (the child decides whether B is rejected); thorough also 1b
-    std::vector<Case> bs = cases;
-    bs.insert(bs.end(), cases1b.begin(), cases1b.end());
+    // B candidates: every phase-1/1b case whose configuration was rejected with a normal return
+    // (quick: the first rejected value class per object type and keyword; thorough: all of them)
+    std::vector<Case> bs;
+    {
+      std::set<std::string> seenB;
+      auto takeB = [&](Case const &c) {
+        if (!thorough) {
+          Mut const &m = c.muts.back();
+          if (!seenB.insert(ctx_label(BASES[c.base], m.ctx) + ":" + m.kw).second) return;
+        }
+        bs.push_back(c);
+      };
+      for (size_t i : rejected1) takeB(cases[i]);
+      for (size_t i : rejected1b) takeB(cases1b[i]);
+    }
+    total.count("rejected_configurations", (long) (rejected1.size() + rejected1b.size()));
     // one B per distinct (prelude, B) text
     std::vector<std::pair<std::string, std::string>> parts(bs.size());
     std::vector<size_t> order;
@@ -1434,10 +1753,10 @@ int main(int argc, char **argv)
           if (o2.kind == "ok") { r.count("abnormal_not_reproduced"); continue; }
           r.count("seq_abnormal_ends");
           r.seen("nontrivial", "seq|" + A.name + "|" + case_id(c));
-          r.violation("C10:seq:" + lab + ":" + o2.kind + (o2.func.size() ? "@" + o2.func : ""), det(o2.kind));
+          r.violation(raw_sig(lab, o2.kind, o2.func), det(o2.kind));
           continue;
         }
-        if (verdict.empty()) { r.violation("C10:seq:" + lab + ":child-report-missing", det("no verdict")); continue; }
+        if (verdict.empty()) { r.violation(raw_sig(lab, "seq:child-report-missing", ""), det("no verdict")); continue; }
         r.count("seq_" + verdict.substr(0, verdict.find(' ')));
         if (verdict == "harness-A-failed" || verdict == "harness-C-failed")
           harness_error("sequence configuration A/C not accepted: " + A.name);
@@ -1452,7 +1771,7 @@ int main(int argc, char **argv)
           continue;
         }
         std::string what = verdict.substr(0, verdict.find(' '));
-        r.violation("C10:seq:" + lab + ":" + what, det(verdict));
+        r.violation(raw_sig(lab, "seq:" + what, ""), det(verdict));
       }
     }, r3, 7000);
     if (!ok) return 2;
@@ -1460,12 +1779,31 @@ int main(int argc, char **argv)
     fprintf(stderr, "phase3: %zu sequences in %.1fs\n", order.size() * nA, now() - t3);
   }
 
-  total.notes.push_back("per-case limits: " + std::to_string((int) T_CASE) + " s wall (replayed with " +
-                        std::to_string((int) T_RETRY) + " s before it is called a hang), " + std::to_string(RSS_CAP_MB) +
+  total.notes.push_back("per-case limits: " + std::to_string((int) T_CASE) + " s CPU time of the child (replayed with " +
+                        std::to_string((int) T_RETRY) + " s before it is called a hang; wall limit 20x), " + std::to_string(RSS_CAP_MB) +
                         " MB resident (polled by the parent), 1024 MB per single allocation (ASan max_allocation_size_mb; "
                         "RLIMIT_AS is unusable under ASan)");
   total.notes.push_back("SIGFPE = integer division/modulo by zero, caught by UBSan in this build; every abnormal end was "
                         "replayed once in a fresh child before being reported");
+  group_findings(total);
+  // the example written out for a finding must itself have been replayed
+  {
+    reset_workdir(wd0);
+    if (chdir(wd0.c_str())) harness_error("chdir " + wd0);
+    for (auto &v : total.violations) {
+      if (v.detail.find("\"replayed_end\"") != std::string::npos || v.detail.find("\"sequence\"") != std::string::npos) continue;
+      size_t p = v.detail.find("\"config\":\"");
+      if (p == std::string::npos) continue;
+      size_t q = p + 10, e = v.detail.rfind("\"}");
+      if (e == std::string::npos || e <= q) continue;
+      std::string conf = Result::junesc(v.detail.substr(q, e - q));
+      reset_workdir(wd0);
+      Outcome o = run_child([&]() { return child_body(conf, false); }, T_RETRY, RSS_CAP_MB);
+      v.detail = "{\"replayed_end\":\"" + jesc(o.kind) + "\",\"replayed_site\":\"" + jesc(o.site) + "\"," + v.detail.substr(1);
+      total.count("final_example_replays");
+      if (o.kind == "ok") total.notes.push_back("WARNING: example of " + v.sig + " did not reproduce in the final replay");
+    }
+  }
   for (auto const &kv : total.counters) fprintf(stderr, "  %-50s %ld\n", kv.first.c_str(), kv.second);
   for (auto const &kv : total.distinct) fprintf(stderr, "  distinct %-41s %zu\n", kv.first.c_str(), kv.second.size());
   for (auto const &kv : total.viol_count) fprintf(stderr, "  VIOL %-60s %ld\n", kv.first.c_str(), kv.second);
